@@ -70,13 +70,17 @@ The models mirror the repaired code; the schedules that broke the old code are k
 TESTS (bounded checks by evaluation, not theorems about all schedules): on the repaired models the
 oracle accepts them.  The same schedules are replayed on the real code by corpus/C04/F*.case. -/
 
-def F3_progs : List (List Op) := [[.enq 1 1], [.enq 2 1], [.deq, .deq, .deq]]
-def F3_sched : List Nat := rep 2 0 ++ rep 10 1 ++ rep 9 2 ++ [0, 0, 0] ++ rep 38 2
+def F3_progs : List (List Op) := [[.enq 1 1], [.enq 2 1], [.enq 3 1], [.deq, .deq, .deq, .deq]]
+def F3_sched : List Nat :=
+  rep 10 0 ++ rep 4 1 ++ rep 4 2 ++ rep 16 3 ++ rep 16 3 ++ [1, 2] ++ rep 16 3 ++ rep 15 3
 
-/-- F3 repaired: the sender whose sub-queue looked empty is re-activated; both messages are delivered -/
+/-- F3 repaired (the scenario on the code after 762e7d2/6fbb6ce: message 1 delivered, messages 2 and 3 counted
+but hidden behind producer 1's unlinked node): the sender whose sub-queue looked empty is re-activated by the
+nil-branch re-check; all messages are delivered (results latest first) -/
 theorem F3_fixed_fair_serves_sender :
     WellFormed F3_progs = true ∧ allDone (runOf .fair F3_progs F3_sched) = true ∧
-    ((runOf .fair F3_progs F3_sched).threads.map fun t => t.results) = [[.ok], [.ok], [.val 2, .val 1, .none]] ∧
+    ((runOf .fair F3_progs F3_sched).threads.map fun t => t.results) =
+      [[.ok], [.ok], [.ok], [.val 3, .val 2, .none, .val 1]] ∧
     verdictOf .fair F3_progs F3_sched = none := by decide +kernel
 
 def F4_progs : List (List Op) := [[.enq 1 0], [.enq 2 0], [.len, .enq 3 0], [.deq]]
@@ -128,80 +132,55 @@ theorem F8_fixed_segmented_no_relink :
     WellFormed F8_progs = true ∧ allDone (runOf (.segmented 2) F8_progs F8_sched) = true ∧
     verdictOf (.segmented 2) F8_progs F8_sched = none := by decide +kernel
 
-/-! ### F9 (open): the fair mailbox counts a message AFTER publishing it
+/-! ### F9, F10 (repaired by 762e7d2 and 6fbb6ce): the fair mailbox counted a message AFTER publishing it
 
-`Enqueue` publishes into the sender's sub-queue, then adds to `length`, then to `pending`.  A late
-activation (a producer saw `pending == 1`, its `CAS:active` runs after the sender was served and
-deactivated again) lists the sender with `pending == 0`; the consumer then takes a message that is
-published but not counted.  Found while attempting the counting invariant
-`length = Σ pending ± in flight`: the invariant is false of the code as it is. -/
+Before 762e7d2 `Enqueue` published into the sender's sub-queue, then added to `length`, then to `pending`.  A
+late activation (a producer saw `pending == 1`, its `CAS:active` ran after the sender was served and deactivated
+again) listed the sender with `pending == 0`; the consumer then took a message that was published but not
+counted: `pending` −1, stored back to 0, +1 by the producer with the sub-queue empty = one too high for ever; the
+sender's next message was never delivered (F9); `length` dipped to −1 meanwhile and the `length > 0` guard gave up
+another sender (F9b).  Before 6fbb6ce the late activation alone made one Dequeue answer nil while other senders'
+completed messages waited (F10).  Found while attempting the counting invariant, which was false of that code.
+The models mirror the repaired code; the three schedules (completed so that every thread finishes) are regression
+TESTS: the oracle accepts them, nothing is left in the mailbox.  Replayed on the real code by corpus/C04/F9*, F10*. -/
 
 def F9_progs : List (List Op) := [[.enq 1 1, .enq 4 1], [.enq 2 1], [.enq 3 1], [.deq, .deq, .deq, .deq, .deq]]
 def F9_sched : List Nat :=
-  rep 10 0 ++ rep 13 3 ++ rep 5 1 ++ rep 6 3 ++ rep 15 3 ++ rep 3 2 ++ rep 5 1 ++ rep 16 3 ++ rep 7 2 ++
-  rep 12 3 ++ rep 5 0 ++ rep 2 3
+  rep 10 0 ++ rep 13 3 ++ rep 5 1 ++ rep 21 3 ++ rep 3 2 ++ rep 5 1 ++ rep 16 3 ++ rep 7 2 ++ rep 12 3 ++ rep 5 0 ++
+  rep 2 3 ++ [0, 3, 0, 3, 0, 3, 0, 0]
 
-/-- F9: message 3 is consumed before it is counted (`pending` −1, stored back to 0, then +1 by its
-producer with the sub-queue empty): `pending` stays one too high, the Enqueue of message 4 sees
-`pending == 2` and does not activate the sender.  Message 4 is accepted and never delivered; at the end
-the sender is inactive with `pending = 2`, `length = 1`, and the active list is empty. -/
-theorem F9_fair_pending_drift_strands_sender :
+/-- F9 repaired: every message the consumer can see is counted; message 4 is delivered by the final drain,
+`pending` of sender 1 ends at 1 − … = the one message left before the drain, `Len()` after the drain is 0 -/
+theorem F9_fixed_fair_counts_before_publishing :
     WellFormed F9_progs = true ∧ allDone (runOf .fair F9_progs F9_sched) = true ∧
-    -- results are listed latest first
-    ((runOf .fair F9_progs F9_sched).threads.map fun t => t.results) =
-      [[.ok, .ok], [.ok], [.ok], [.none, .none, .val 3, .val 2, .val 1]] ∧
-    (historyOf (runOf .fair F9_progs F9_sched)).drained = [] ∧
-    (historyOf (runOf .fair F9_progs F9_sched)).finalLen = 1 ∧
-    (((runOf .fair F9_progs F9_sched).sh.boxes 1).pending = 2 ∧
-      ((runOf .fair F9_progs F9_sched).sh.boxes 1).active = false) ∧
-    verdictOf .fair F9_progs F9_sched = some "exactly-once" := by decide +kernel
+    (historyOf (runOf .fair F9_progs F9_sched)).drained = [4] ∧
+    (historyOf (runOf .fair F9_progs F9_sched)).finalLen = 0 ∧
+    verdictOf .fair F9_progs F9_sched = none := by decide +kernel
 
 def F9b_progs : List (List Op) :=
   [[.enq 1 2], [.enq 2 2], [.enq 3 2], [.enq 5 1], [.enq 6 1], [.deq, .deq, .deq, .deq, .deq]]
 def F9b_sched : List Nat :=
-  rep 10 0 ++ rep 13 5 ++ rep 5 1 ++ rep 6 5 ++ rep 15 5 ++ rep 3 2 ++ rep 5 1 ++ rep 16 5 ++ rep 2 3 ++
-  rep 10 4 ++ rep 12 5 ++ rep 3 3 ++ rep 7 2 ++ rep 16 5
+  rep 10 0 ++ rep 13 5 ++ rep 5 1 ++ rep 21 5 ++ rep 3 2 ++ rep 5 1 ++ rep 16 5 ++ rep 2 3 ++ rep 10 4 ++ rep 12 5 ++
+  rep 3 3 ++ rep 7 2 ++ rep 16 5 ++ [3, 5, 3, 5, 3, 5, 3, 3]
 
-/-- F9b: the same uncounted consumption (sender 2) takes `length` to −1 for a while; in that window the
-guard `length > 0` of the nil-branch re-check fails for sender 1, whose counted message 6 is hidden
-behind the unlinked node of message 5: sender 1 is deactivated with `pending = 1` and never served
-again.  Messages 5 and 6 are accepted and never delivered. -/
-theorem F9b_fair_length_dip_strands_other_sender :
+/-- F9b repaired: `length` never dips, sender 1 keeps its activation; 5 and 6 are delivered -/
+theorem F9b_fixed_fair_length_does_not_dip :
     WellFormed F9b_progs = true ∧ allDone (runOf .fair F9b_progs F9b_sched) = true ∧
-    ((runOf .fair F9b_progs F9b_sched).threads.map fun t => t.results) =
-      [[.ok], [.ok], [.ok], [.ok], [.ok], [.none, .none, .val 3, .val 2, .val 1]] ∧
-    (historyOf (runOf .fair F9b_progs F9b_sched)).drained = [] ∧
-    (historyOf (runOf .fair F9b_progs F9b_sched)).finalLen = 2 ∧
-    (((runOf .fair F9b_progs F9b_sched).sh.boxes 1).pending = 2 ∧
-      ((runOf .fair F9b_progs F9b_sched).sh.boxes 1).active = false) ∧
-    verdictOf .fair F9b_progs F9b_sched = some "exactly-once" := by decide +kernel
+    (historyOf (runOf .fair F9b_progs F9b_sched)).drained = [6, 5] ∧
+    (historyOf (runOf .fair F9b_progs F9b_sched)).finalLen = 0 ∧
+    verdictOf .fair F9b_progs F9b_sched = none := by decide +kernel
 
 def F10_progs : List (List Op) := [[.enq 1 1], [.enq 2 1], [.enq 3 2], [.deq, .deq, .len, .deq, .deq]]
 def F10_sched : List Nat :=
-  rep 10 0 ++ rep 13 3 ++ rep 5 1 ++ rep 6 3 ++ rep 15 3 ++ rep 5 1 ++ rep 10 2 ++ rep 1 3 ++ rep 12 3 ++ rep 15 3
+  rep 10 0 ++ rep 13 3 ++ rep 5 1 ++ rep 21 3 ++ rep 5 1 ++ rep 10 2 ++ rep 29 3
 
-/-- F10 (open): late activation.  The producer of message 2 saw `pending == 1`; its `CAS:active` runs
-after the consumer has delivered 2 and deactivated sender 1, and lists sender 1 with nothing to deliver.
-Message 3 of sender 2 is then enqueued completely and `Len()` answers 1; the next Dequeue pops sender 1
-and answers nil with no enqueue in flight; the one after delivers 3.  (results latest first) -/
-theorem F10_fair_late_activation_spurious_nil :
+/-- F10 repaired: the sender listed by the late activation has nothing counted and is skipped; the Dequeue after
+`Len() = 1` delivers 3, the last one answers nil on an empty mailbox (results latest first) -/
+theorem F10_fixed_fair_skips_idle_sender :
     WellFormed F10_progs = true ∧ allDone (runOf .fair F10_progs F10_sched) = true ∧
     ((runOf .fair F10_progs F10_sched).threads.map fun t => t.results) =
-      [[.ok], [.ok], [.ok], [.val 3, .none, .num 1, .val 2, .val 1]] ∧
-    verdictOf .fair F10_progs F10_sched = some "empty-unsound" := by decide +kernel
-
-/-- the counting facts the repair 240356c relies on ("a counted message of this sender implies
-`length > 0`"; `pending ≥ 0`) are FALSE of the code as it is: a reachable configuration of the F9b run
-has the consumer parked at the re-check of sender 1 (`i4`) with `pending = 1` and `length = 0`, and one of the F9 run has `pending = −1`. -/
-theorem fair_counting_refuted :
-    (∃ c, Reach Fair.algo (initCfg Fair.algo Fair.init F9b_progs) c ∧
-      (c.sh.boxes 1).pending = 1 ∧ c.sh.length = 0 ∧ (c.sh.boxes 1).active = false ∧
-      (c.threads[5]?.bind fun t => t.pc) = some (Fair.PC.i4 1)) ∧
-    (∃ c, Reach Fair.algo (initCfg Fair.algo Fair.init F9_progs) c ∧ (c.sh.boxes 1).pending = -1) := by
-  refine ⟨⟨runSched (initCfg Fair.algo Fair.init F9b_progs) (F9b_sched.take 96), reach_runSched _ _ Reach.init _, ?_⟩,
-    ⟨runSched (initCfg Fair.algo Fair.init F9_progs) (F9_sched.take 69), reach_runSched _ _ Reach.init _, ?_⟩⟩
-  · decide +kernel
-  · decide +kernel
+      [[.ok], [.ok], [.ok], [.none, .val 3, .num 1, .val 2, .val 1]] ∧
+    verdictOf .fair F10_progs F10_sched = none := by decide +kernel
 
 /-- The full property is FALSE of the current code: F2 is inherent to the algorithm of the default
 mailbox (the clause "never reports empty while a completed enqueue has not been dequeued" cannot
@@ -625,18 +604,18 @@ theorem intake_exactly_once (k : Intake.Conf) (ct : Nat) (progs : List (List Op)
       (pushedOf (traceI (initCfg (Intake.algo k) Intake.init progs) sched)) :=
   exactly_once (k := k) ct progs wf sched t ht
 
-/-! ### UnboundedFairMailbox: the activation protocol, for ALL schedules
+/-! ### UnboundedFairMailbox (repaired): the activation protocol and the counting identity, for ALL schedules
 
-`FairInv.ActInv c`: every sender with counted messages (`pending > 0`) is active, or some thread is parked
-at a site from which it will still (re)check that sender (the producer between `Add:pending` = 1 and its
-`CAS:active`; the consumer between `Store:active(false)` and its re-check).  Every atomic step of every
-thread preserves it except ONE: the nil-branch re-check executed while `pending > 0`, `active = false` and
-`length ≤ 0` (`FairInv.guardMiss`) — the step the counting identity was meant to exclude and the one the
-witnesses F9/F9b take.  `FairInv.ReachNM` = reachable without such a step.  The counting identity is false of
-the code as it is (`fair_counting_refuted`); it is proved below for the runs on which no message is consumed
-before it is counted (`fair_counting_identity`), where it excludes that step (`fair_no_stranded_sender`).
-NOT proved: that an active sender is in the active list exactly once (the list structure), and that the
-repaired code (fixes/C04-fair-count-before-publish) never consumes an uncounted message. -/
+`FairInv.ActInv c`: every sender with counted messages (`pending > 0`) is active, or some thread is parked at a
+site from which it will still (re)check that sender (the producer from its `Add:pending` = 1 through the
+publication to its `CAS:active`; the consumer between `Store:active(false)` and its re-check).  Every atomic step
+of every thread preserves it except ONE: the nil-branch re-check (`i3`) evaluated while `pending > 0`,
+`active = false` and `length ≤ 0` (`FairInv.guardMiss`).  `FairInv.ReachNM` = reachable without such a step.
+The counting identity (`fair_counting_identity`) excludes that step on every run on which no message is consumed
+before it is counted (`FairInv.ReachNU`), which gives `fair_no_stranded_sender`.  NOT proved: that the repaired
+code never consumes an uncounted message (`ReachNU` = `Reach`; true by construction of 762e7d2 — a message is
+published after it is counted — but it needs the sub-queue's "dequeues ≤ reservations" inside the composite), and
+that an active sender is in the active list exactly once (the list structure). -/
 
 theorem fair_activation_protocol (progs : List (List Op)) (c : Cfg Fair.algo)
     (h : FairInv.ReachNM (initCfg Fair.algo Fair.init progs) c) :
@@ -658,7 +637,7 @@ theorem fair_no_stranded_sender_when_quiescent (progs : List (List Op)) (c : Cfg
 branch is not taken), any number of producers, one consumer `ct`:
 `length = Σ_{k<K} pending_k + #{threads between Add:length(+1) and Add:pending(+1)} − #{threads between
 Add:length(−1) and Add:pending(−1)}` for a bound `K` beyond which every `pending` is 0, and every `pending`
-is non-negative.  The hypothesis is what the code as it is violates (`fair_counting_refuted`, F9). -/
+is non-negative.  Before 762e7d2 the code violated the hypothesis (F9). -/
 theorem fair_counting_identity (ct : Nat) (progs : List (List Op)) (wf : FairInv.FairWF ct progs) (c : Cfg Fair.algo)
     (h : FairInv.ReachNU (initCfg Fair.algo Fair.init progs) c) :
     (∃ K, FairInv.Supp c.sh K ∧ c.sh.length = FairInv.sumP K c.sh + FairInv.cnt c.threads) ∧
@@ -675,27 +654,27 @@ theorem fair_no_stranded_sender (ct : Nat) (progs : List (List Op)) (wf : FairIn
   have hnm := FairInv.reachNU_reachNM ct progs wf c h
   exact ⟨fair_activation_protocol progs c hnm, fun hd => fair_no_stranded_sender_when_quiescent progs c hnm hd⟩
 
-/-- the hypothesis is not vacuous: the F3 schedule (two producers of one sender, the consumer running into the
-nil-branch re-check) consumes nothing uncounted, so its final configuration is covered by the two theorems
-above; the F9 schedule is not (its 69th step is the uncounted decrement) -/
+/-- the hypothesis is not vacuous: the F3 schedule (three producers of one sender, the consumer running into the
+nil-branch re-check) and the F9 schedule (late activation; uncounted consumption before 762e7d2) consume nothing
+uncounted on the repaired model, so their final configurations are covered by the two theorems above -/
 theorem fair_hypothesis_instances :
     FairInv.ReachNU (initCfg Fair.algo Fair.init F3_progs) (runOf .fair F3_progs F3_sched) ∧
-    FairInv.FairWF 2 F3_progs ∧
-    FairInv.runNU (initCfg Fair.algo Fair.init F9_progs) (F9_sched.take 68) = true ∧
-    FairInv.runNU (initCfg Fair.algo Fair.init F9_progs) (F9_sched.take 69) = false := by
-  refine ⟨FairInv.reachNU_run _ _ FairInv.ReachNU.init F3_sched (by decide +kernel), ?_, by decide +kernel, by decide +kernel⟩
+    FairInv.FairWF 3 F3_progs ∧
+    FairInv.runNU (initCfg Fair.algo Fair.init F9_progs) F9_sched = true := by
+  refine ⟨FairInv.reachNU_run _ _ FairInv.ReachNU.init F3_sched (by decide +kernel), ?_, by decide +kernel⟩
   intro i p hp hi op ho
   match i, hp with
   | 0, hp => simp [F3_progs] at hp; subst hp; simp at ho; subst ho; rfl
   | 1, hp => simp [F3_progs] at hp; subst hp; simp at ho; subst ho; rfl
-  | 2, _ => exact absurd rfl hi
-  | n + 3, hp => simp [F3_progs] at hp
+  | 2, hp => simp [F3_progs] at hp; subst hp; simp at ho; subst ho; rfl
+  | 3, _ => exact absurd rfl hi
+  | n + 4, hp => simp [F3_progs] at hp
 
 /-- the sub-queue of sender `k` is an UnboundedMailbox driven by nothing but UnboundedMailbox steps taken
 on behalf of `k`: every step of the fair mailbox leaves it alone or is exactly one step of that mailbox -/
 theorem fair_subqueue_frame (s : Fair.Sh) (pc : Fair.PC) (k : Nat) :
     ((Fair.exec s pc).1.boxes k).mb = (s.boxes k).mb ∨
-    ∃ upc, pc = .ub k upc ∧ ((Fair.exec s pc).1.boxes k).mb = (Unbounded.exec (s.boxes k).mb upc).1 :=
+    ∃ first upc, pc = .ub k first upc ∧ ((Fair.exec s pc).1.boxes k).mb = (Unbounded.exec (s.boxes k).mb upc).1 :=
   FairInv.subqueue_frame s pc k
 
 /-! ### one citation point: every mailbox kind refines its documented sequential queue
@@ -772,13 +751,13 @@ def Refines : MB → Prop
     -- per-sender queues + active list.  (1) each per-sender sub-queue is an UnboundedMailbox: it refines the
     -- FIFO reservation queue in isolation, and (2) inside the fair mailbox it is driven by UnboundedMailbox
     -- steps only; (3) activation protocol: in every configuration reachable without a `guardMiss` step, a
-    -- sender with counted messages is active or about to be (re)checked.  The composite exactly-once statement
-    -- is FALSE of the code as it is (F9, F10); see design/C04.md for what is missing
+    -- sender with counted messages is active or about to be (re)checked.  The composite exactly-once statement is
+    -- checked by the oracle on every run, not proved; see design/C04.md for what is missing
     (∀ (ct tid : Nat) (c : UB.Cf) (cells : List Cell), UB.Inv ct c cells →
       ∃ cells', UB.specStep cells (UB.stepEv c tid) = some cells' ∧ UB.Inv ct (stepCfg c tid) cells') ∧
     (∀ (s : Fair.Sh) (pc : Fair.PC) (k : Nat),
       ((Fair.exec s pc).1.boxes k).mb = (s.boxes k).mb ∨
-      ∃ upc, pc = .ub k upc ∧ ((Fair.exec s pc).1.boxes k).mb = (Unbounded.exec (s.boxes k).mb upc).1) ∧
+      ∃ first upc, pc = .ub k first upc ∧ ((Fair.exec s pc).1.boxes k).mb = (Unbounded.exec (s.boxes k).mb upc).1) ∧
     (∀ (progs : List (List Op)) (c : Cfg Fair.algo), FairInv.ReachNM (initCfg Fair.algo Fair.init progs) c →
       ∀ k, (c.sh.boxes k).pending > 0 → (c.sh.boxes k).active = true ∨ FairInv.someoneChecks c k) ∧
     -- (4) on runs without uncounted consumption: the counting identity, and no stranded sender outright
@@ -792,8 +771,8 @@ def Refines : MB → Prop
 
 
 /-- EVERY mailbox kind refines its documented sequential queue, in the sense of `Refines`
-(the fair mailbox: its per-sender sub-queues and its activation protocol; its composite exactly-once
-statement is refuted by F9/F10) -/
+(the fair mailbox: its per-sender sub-queues, its activation protocol and its counting identity; its composite
+exactly-once statement is tied and judged on every run, not proved) -/
 theorem C04_all_refine : ∀ m : MB, Refines m := by
   intro m
   cases m with
